@@ -16,6 +16,7 @@ R5 prange discipline in properties.py: inside a prange loop array stores are ind
 Assumed: aligned 8-byte stores are not torn; termination. Not decided: equality of the sums with an oracle.
 """
 import ast
+import re
 
 from engine import pyfacts
 from engine.pyfacts import src
@@ -59,8 +60,38 @@ def r1(R, m):
                      "same edge p, under pi != pj; nbad += 1 exactly on that path")
     fn = m.func("numbalabelNd")
     loops = [l for l in ast.walk(fn) if isinstance(l, ast.For)]
-    R.shape(len(loops) == 1 and is_prange(loops[0]), "C15.R1", REL, "numbalabelNd", "the single prange sweep")
-    lp = loops[0]
+    nexpr = "len(%s)" % fn.args.args[0].arg
+    if len(loops) == 2 and is_prange(loops[0]) and loops[1] in ast.walk(loops[0]) and len(loops[0].body) == 1:
+        # blocked sweep: one contiguous block of edges per parallel iteration; it must still visit every edge once
+        outer, inner = loops
+        t = src(outer.target)
+        it = inner.iter
+        ok_inner = isinstance(it, ast.Call) and src(it.func) == "range" and len(it.args) == 2
+        R.shape(ok_inner, "C15.R1", REL, "numbalabelNd", "inner block loop 'for k in range(lo, hi)'")
+        lo, hi = src(it.args[0]).replace(" ", ""), src(it.args[1]).replace(" ", "")
+        nb = src(outer.iter.args[0]).replace(" ", "") if isinstance(outer.iter, ast.Call) and outer.iter.args else None
+        defs = {src(a.targets[0]): a.value for a in ast.walk(fn) if isinstance(a, ast.Assign) and isinstance(a.targets[0], ast.Name)}
+        m1 = re.match(r"^%s\*(\w+)$" % re.escape(t), lo) or re.match(r"^(\w+)\*%s$" % re.escape(t), lo)
+        R.shape(m1 is not None and nb is not None, "C15.R1", REL, "numbalabelNd", "block bounds t*blk .. min((t+1)*blk, n)")
+        blk = m1.group(1)
+        n_ = nexpr.replace(" ", "")
+        hi_ok = hi in ("min((%s+1)*%s,%s)" % (t, blk, n_), "min(%s,(%s+1)*%s)" % (n_, t, blk), "min(%s*(%s+1),%s)" % (blk, t, n_))
+        R.shape(hi_ok and blk in defs, "C15.R1", REL, "numbalabelNd", "block end min((t+1)*blk, len(i)) with blk defined in the function")
+        bdef = src(defs[blk]).replace(" ", "")
+        nbv = src(defs[nb]).replace(" ", "") if nb in defs else nb
+        ceil_forms = ("(%s+%s-1)//%s" % (n_, nb, nb), "(%s-1+%s)//%s" % (n_, nb, nb), "-(-%s//%s)" % (n_, nb), "(%s+%s-1)//%s" % (nb, n_, nb),
+                      "max(1,(%s+%s-1)//%s)" % (n_, nb, nb), "max(1,-(-%s//%s))" % (n_, nb))
+        covering = bdef in ceil_forms
+        R.check(covering, "C15.R1", REL, inner.lineno, "numbalabelNd", "blocks of %s = %s edges over %s parallel iterations cover all %s edges" % (blk, src(defs[blk]), nb, nexpr),
+                "the block size is not the ceiling of len(i)/%s: the last len(i) %% %s edges (first ones on the reversed sweep) are never "
+                "visited, so a sweep that reports 0 changes no longer certifies that every edge agrees" % (nb, nb))
+        lp = inner
+    else:
+        R.shape(len(loops) == 1 and is_prange(loops[0]), "C15.R1", REL, "numbalabelNd", "the single prange sweep (or a blocked sweep prange(nblk) x range(block))")
+        lp = loops[0]
+        it = lp.iter
+        R.check(isinstance(it, ast.Call) and len(it.args) == 1 and src(it.args[0]).replace(" ", "") == nexpr.replace(" ", ""), "C15.R1", REL, lp.lineno, "numbalabelNd",
+                "the sweep runs over prange(%s)" % nexpr, "the sweep does not visit every edge: %s" % src(it))
     args = [a.arg for a in fn.args.args]
     ei, ej, lab = args[0], args[1], args[2]
     env = {}
